@@ -6,6 +6,7 @@ package main
 // faulting value; otherwise report a violation.
 
 import (
+	"os"
 	"regexp"
 	"fmt"
 	"go/token"
@@ -1387,6 +1388,8 @@ var reviewedExceptions = []exceptionEntry{
 		reason: "reached for audio representations only, which are registered only with a non-nil, non-zero constant sample duration", premise: verifyAudioSampleDurGuard},
 	{rule: "E3-D2", fn: "app.calcAudioSegRecipe", constructPrefix: "deref:load(app.RepData.ConstantSampleDuration)",
 		reason: "reached for audio representations only, which are registered only with a non-nil, non-zero constant sample duration", premise: verifyAudioSampleDurGuard},
+	{rule: "E3-D2", fn: "(*app.asset).generateTimelineEntriesFromRef", constructPrefix: "deref:load(mpd.S.T)",
+		reason: "entries[0] of the reference timeline: the generator creates an S without @t only after an earlier S exists, so the first entry always carries @t", premise: verifyFirstEntryHasT},
 	{rule: "E3-D2", fn: "(*recv.ChannelMgr).AddChannel", constructPrefix: "deref:load(recv.ChannelMgr.cfg)",
 		reason: "the receiver is always constructed with a non-nil configuration (GetEmptyConfig or a successfully read file in Run); the nil test above is defensive"},
 	{rule: "E3-B1", fn: "(*recv.channel).receivedSegData", constructPrefix: "index:load(recv.segDataBuffer.items)[",
@@ -1424,6 +1427,9 @@ func reviewedException(rule, fn, construct string) (string, bool) {
 						res = "ok: " + why
 					}
 					premiseMemo[key] = res
+					if os.Getenv("LSVERIF_VERBOSE") != "" {
+						fmt.Fprintln(os.Stderr, "premise", key, res)
+					}
 				}
 				if strings.HasPrefix(res, "FAIL") {
 					return "", false // premise no longer holds: the obligation becomes a violation
@@ -1489,4 +1495,72 @@ func verifyAudioSampleDurGuard(p *Program) (bool, string) {
 		return false, "no registration into asset.Reps in loadAsset"
 	}
 	return true, "audio representations are registered only after ConstantSampleDuration != nil && != 0 (loadAsset)"
+}
+
+// verifyFirstEntryHasT: in the timeline generators of livesim2 every mpd.S that is created without @t is
+// created on paths where the running entry variable is known to be non-nil (an earlier S exists), and the
+// dereference concerned reads element 0.
+func verifyFirstEntryHasT(p *Program) (bool, string) {
+	n := 0
+	for _, name := range []string{"(*asset).generateTimelineEntries", "(*asset).generateTimelineEntriesFromRef"} {
+		fn := p.lookupFunc(pkgApp, name)
+		if fn == nil {
+			return false, name + " not found"
+		}
+		f := factsOf(fn)
+		var withT []*ssa.BasicBlock
+		for _, b := range fn.DomPreorder() {
+			for _, in := range b.Instrs {
+				al, ok := in.(*ssa.Alloc)
+				if !ok || !strings.HasSuffix(al.Type().String(), "dash-mpd/mpd.S") || al.Referrers() == nil {
+					continue
+				}
+				hasT := false
+				for _, ref := range *al.Referrers() {
+					if fa, ok := ref.(*ssa.FieldAddr); ok && structFieldOf(fa.X.Type(), fa.Field) == "mpd.S.T" && fa.Referrers() != nil {
+						for _, rr := range *fa.Referrers() {
+							if st, ok := rr.(*ssa.Store); ok && st.Addr == fa && !isNilConst(st.Val) {
+								hasT = true
+							}
+						}
+					}
+				}
+				n++
+				if hasT {
+					withT = append(withT, b)
+					continue
+				}
+				// without @t: an S with @t was created on every path to here ...
+				domd := false
+				for _, wb := range withT {
+					if wb.Dominates(b) {
+						domd = true
+					}
+				}
+				if domd {
+					continue
+				}
+				// ... or some earlier entry must exist (a *mpd.S variable tested non-nil on every path)
+				for _, set := range f.condSets(b) {
+					ok := false
+					for _, c := range set {
+						bo, isBin := c.V.(*ssa.BinOp)
+						if !isBin || !isNilConst(bo.Y) || !strings.HasSuffix(bo.X.Type().String(), "dash-mpd/mpd.S") {
+							continue
+						}
+						if (bo.Op == token.EQL && !c.Pos) || (bo.Op == token.NEQ && c.Pos) {
+							ok = true
+						}
+					}
+					if !ok {
+						return false, "an S without @t is created at " + p.pos(al.Pos()) + " on a path where no earlier entry is known to exist"
+					}
+				}
+			}
+		}
+	}
+	if n < 2 {
+		return false, "fewer than two S creation sites found in the timeline generators"
+	}
+	return true, "S entries without @t are created only after an earlier entry (timeline generators)"
 }
